@@ -135,6 +135,10 @@ use vstd::std_specs::hash::{obeys_key_model, contains_borrowed_key, maps_borrowe
 pub broadcast axiom fn axiom_string_obeys_key_model()
     ensures #[trigger] obeys_key_model::<String>();
 
+/// String's `Ord` is a total order consistent with `==` (std): it obeys vstd's ordered-key model (BTreeMap<String, _> in QueuesSummary)
+pub broadcast axiom fn axiom_string_obeys_cmp()
+    ensures #[trigger] vstd::laws_cmp::obeys_cmp::<String>();
+
 /// Strings are equal iff their characters are
 pub broadcast axiom fn axiom_string_view_injective(a: String, b: String)
     ensures (#[trigger] a@) == (#[trigger] b@) ==> a == b;
@@ -169,7 +173,7 @@ pub assume_specification<'a, K: core::borrow::Borrow<Q> + core::hash::Hash + Eq,
 
 pub broadcast group group_string_map {
     axiom_borrowed_matches_str,
-    axiom_string_obeys_key_model, axiom_string_view_injective, axiom_contains_borrowed_str, axiom_maps_borrowed_str,
+    axiom_string_obeys_key_model, axiom_string_obeys_cmp, axiom_string_view_injective, axiom_contains_borrowed_str, axiom_maps_borrowed_str,
     axiom_borrowed_removed_str,
 }
 
